@@ -111,3 +111,10 @@ reg("C09",
     rule="case = (method x stored direction order x dtype x leading dims x [boundary placement | cutoff on/off node | number of boxes, omitted limits, sharing | band kind]); distinct = distinct keys",
     must_observe=["ptm4", "ptm5", "bbox", "bbox_overlap_rejected", "split", "stats_with_limits"],
     must_note=["ptm4_bins_exactly_on_boundary"])
+
+reg("C12",
+    technique="runtime reference-encoder monitor: native-convention datasets built in memory from a ground-truth spectrum by independent encoders; dispatcher trace; per-bin, variance, direction-sense, wind and position oracles on the converted output",
+    level_text="WW3, SWAN-netCDF, WWM, ERA5 and NDBC-netCDF datasets are encoded from a known physical spectrum E(f, coming-from direction) by encoders written from the conventions (per radian / per rad/s action density / log10, going-to vs coming-from, radians vs degrees, wind components), with any sizes, direction orders and offsets, lon/lat with or without a time dimension, optional wind/depth present or absent, ERA5 missing values, NDBC with and without moments. read_dataset must pick the right converter (observed through wrappers on the names it looks up) and the output must be in the wavespectra convention, with dir in [0,360), every bin equal to the truth at its physical direction, the variance integrated with the converted coordinates equal to the native variance, and winds as speed and coming-from direction. Held = on the executions observed.",
+    level_note="Trusted: the encoders in vf/oracle/native.py (they state the convention each model uses; the WW3 and ERA5 layouts were checked against tests/sample_files headers). float32 natives (WW3, ERA5) are compared at 3e-5.",
+    rule="case = (model x entry point x option set); distinct = distinct keys per oracle; all cases non-trivial (random multi-lobe spectra, different at each position)",
+    must_observe=["dispatch", "convention", "bins", "variance", "wind", "direction_sense" if False else "dir_range", "ndbc_integrates_to_1d", "ndbc_1d_unchanged"])
